@@ -1,0 +1,237 @@
+//go:build verif
+// +build verif
+
+// Machine-checked contracts for this package (checked by /verif/govc). Comment-only.
+
+package kube
+
+//@ import corev1 "k8s.io/api/core/v1"
+//@ import resource "k8s.io/apimachinery/pkg/api/resource"
+//@ import clusterUtil "github.com/ovrclk/akash/provider/cluster/util"
+//@ import atypes "github.com/ovrclk/akash/types"
+
+// ---- C11 (part): the pod and container the provider builds for a tenant service are locked down ----
+//@ extern clusterUtil.ComputeCommittedResources(factor, rv)
+//@   pure
+// the amount a Quantity stands for: value * 10^scale (A-QUANTITY: Quantity arithmetic is not interpreted)
+//@ spec qtyVal(q: resource.Quantity): int
+//@ spec qtyScale(q: resource.Quantity): int
+//@ extern resource.NewScaledQuantity(value, scale)
+//@   modifies nothing
+//@   fresh
+//@   ensures result != nil && qtyVal(*result) == value && qtyScale(*result) == scale
+//@ extern resource.NewQuantity(value, format)
+//@   modifies nothing
+//@   fresh
+//@   ensures result != nil && qtyVal(*result) == value && qtyScale(*result) == 0
+//@ extern resource.(Quantity).DeepCopy(q)
+//@   pure
+//@   ensures qtyVal(result) == qtyVal(q) && qtyScale(result) == qtyScale(q)
+//@ extern "strings".SplitN(s, sep, n)
+//@   modifies nothing
+//@   fresh
+//@   ensures 0 <= len(result) && len(result) <= cap(result)
+
+//@ func (*deploymentBuilder).addEnvVarsForDeployment
+//@   trusted
+//@   modifies nothing
+//@   ensures 0 <= len(result) && len(result) <= cap(result) && (arr(result) == arr(env) || fresh(result))
+
+//@ func (*deploymentBuilder).name
+//@   trusted
+//@   pure
+//@ func (*deploymentBuilder).labels
+//@   trusted
+//@   modifies nothing
+//@   ensures fresh(result)
+
+// the container runs unprivileged and cannot escalate
+//@ func (*deploymentBuilder).container
+//@   requires b != nil && b.service != nil
+//@   modifies nothing
+//@   loop 1 modifies kcontainer.Env[**], envVarsAdded[*]
+//@   loop 1 invariant 0 <= iter && 0 <= len(kcontainer.Env) && len(kcontainer.Env) <= cap(kcontainer.Env)
+//@   loop 1 invariant arr(kcontainer.Env) == nil || freshloop(kcontainer.Env) || arr(kcontainer.Env) == atloop(arr(kcontainer.Env))
+//@   loop 1 invariant kcontainer.SecurityContext == atloop(kcontainer.SecurityContext) && kcontainer.Ports == atloop(kcontainer.Ports) && kcontainer.Resources == atloop(kcontainer.Resources)
+//@   loop 2 invariant kcontainer.SecurityContext == atloop(kcontainer.SecurityContext) && kcontainer.Resources == atloop(kcontainer.Resources)
+//@   loop 2 modifies kcontainer.Ports[**]
+//@   loop 2 invariant 0 <= iter && 0 <= len(kcontainer.Ports) && len(kcontainer.Ports) <= cap(kcontainer.Ports)
+//@   loop 2 invariant arr(kcontainer.Ports) == nil || freshloop(kcontainer.Ports) || arr(kcontainer.Ports) == atloop(arr(kcontainer.Ports))
+//@   ensures [secctx] result.SecurityContext != nil && fresh(result.SecurityContext)
+//@   ensures [cpulimit] b.service.Resources.CPU != nil ==> has(result.Resources.Limits, "cpu") && qtyVal(result.Resources.Limits["cpu"]) == b.service.Resources.CPU.Units.Val && qtyScale(result.Resources.Limits["cpu"]) == 0 - 3
+//@   ensures [memlimit] b.service.Resources.Memory != nil ==> has(result.Resources.Limits, "memory") && qtyVal(result.Resources.Limits["memory"]) == b.service.Resources.Memory.Quantity.Val && qtyScale(result.Resources.Limits["memory"]) == 0
+//@   ensures [stolimit] b.service.Resources.Storage != nil ==> has(result.Resources.Limits, "ephemeral-storage") && qtyVal(result.Resources.Limits["ephemeral-storage"]) == b.service.Resources.Storage.Quantity.Val && qtyScale(result.Resources.Limits["ephemeral-storage"]) == 0
+//@   ensures [unprivileged] result.SecurityContext.Privileged != nil && fresh(result.SecurityContext.Privileged) && !*result.SecurityContext.Privileged
+//@   ensures [noescalation] result.SecurityContext.AllowPrivilegeEscalation != nil && fresh(result.SecurityContext.AllowPrivilegeEscalation) && !*result.SecurityContext.AllowPrivilegeEscalation
+
+// the namespace of a lease: base32(sha224(lease id)), a function of the lease id (A-HASH: the hash is not modelled)
+//@ import mtypes "github.com/ovrclk/akash/x/market/types"
+//@ spec nsOf(lid: mtypes.LeaseID): str
+//@ func lidNS
+//@   trusted
+//@   pure
+//@   ensures result == nsOf(lid)
+//@ func (*builder).ns
+//@   pure
+//@   requires b != nil
+//@   ensures result == nsOf(b.lid)
+
+// the pod: no service-account token, exactly one container, and that container is the locked-down one
+//@ spec lockedDown(c: corev1.Container): bool = c.SecurityContext != nil && c.SecurityContext.Privileged != nil && !*c.SecurityContext.Privileged
+//@      && c.SecurityContext.AllowPrivilegeEscalation != nil && !*c.SecurityContext.AllowPrivilegeEscalation
+//@ func (*deploymentBuilder).create
+//@   requires b != nil && b.service != nil
+//@   modifies nothing
+//@   ensures [pod] result1 == nil && result0 != nil && fresh(result0)
+//@   ensures [automount] result0.Spec.Template.Spec.AutomountServiceAccountToken != nil && !*result0.Spec.Template.Spec.AutomountServiceAccountToken
+//@   ensures [container] len(result0.Spec.Template.Spec.Containers) == 1 && lockedDown(result0.Spec.Template.Spec.Containers[0])
+//@ func (*deploymentBuilder).update
+//@   requires b != nil && b.service != nil && obj != nil && obj.Spec.Selector != nil
+//@   modifies obj.ObjectMeta.Labels, obj.Spec.Selector.MatchLabels, obj.Spec.Replicas, obj.Spec.Template.ObjectMeta.Labels, obj.Spec.Template.Spec.Containers
+//@   ensures [same] result1 == nil && result0 == obj
+//@   ensures [container] len(result0.Spec.Template.Spec.Containers) == 1 && lockedDown(result0.Spec.Template.Spec.Containers[0])
+
+// every object of the lease is read, created and updated in the lease's namespace, whatever the manifest says
+//@ import kubernetes "k8s.io/client-go/kubernetes"
+//@ import appsv1c "k8s.io/client-go/kubernetes/typed/apps/v1"
+//@ import corev1c "k8s.io/client-go/kubernetes/typed/core/v1"
+//@ import netv1c "k8s.io/client-go/kubernetes/typed/networking/v1"
+//@ import metricsutils "github.com/ovrclk/akash/util/metrics"
+//@ import kerrors "k8s.io/apimachinery/pkg/api/errors"
+//@ extern kubernetes.(Interface).AppsV1(recv)
+//@   pure
+//@ extern kubernetes.(Interface).CoreV1(recv)
+//@   pure
+//@ extern kubernetes.(Interface).NetworkingV1(recv)
+//@   pure
+//@ extern appsv1c.(AppsV1Interface).Deployments(recv, namespace)
+//@   pure
+//@ extern corev1c.(ServicesGetter).Services(recv, namespace)
+//@   pure
+//@ extern netv1c.(IngressesGetter).Ingresses(recv, namespace)
+//@   pure
+//@ extern netv1c.(NetworkPoliciesGetter).NetworkPolicies(recv, namespace)
+//@   pure
+// (A-K8S) an object returned by the API server is a freshly decoded object; apps/v1 deployments carry a selector
+//@ extern appsv1c.(DeploymentInterface).Get(recv, ctx, name, opts)
+//@   pure
+//@   ensures result1 == nil ==> result0 != nil && fresh(result0) && result0.Spec.Selector != nil && fresh(result0.Spec.Selector)
+//@ extern appsv1c.(DeploymentInterface).Create(recv, ctx, obj, opts)
+//@   pure
+//@ extern appsv1c.(DeploymentInterface).Update(recv, ctx, obj, opts)
+//@   pure
+//@ extern metricsutils.IncCounterVecWithLabelValuesFiltered(counter, name, err, filters)
+//@   pure
+//@ extern metricsutils.IncCounterVecWithLabelValues(counter, name, err)
+//@   pure
+//@ extern kerrors.IsNotFound(err)
+//@   pure
+//@ func applyDeployment
+//@   requires b != nil && b.service != nil
+//@   oncall v1.(AppsV1Interface).Deployments 1 assert callarg0 == nsOf(b.lid)
+//@   oncall v1.(AppsV1Interface).Deployments 2 assert callarg0 == nsOf(b.lid)
+//@   oncall v1.(AppsV1Interface).Deployments 3 assert callarg0 == nsOf(b.lid)
+//@   oncall v1.(DeploymentInterface).Create 1 assert len(callarg1.Spec.Template.Spec.Containers) == 1 && lockedDown(callarg1.Spec.Template.Spec.Containers[0])
+//@   oncall v1.(DeploymentInterface).Update 1 assert len(callarg1.Spec.Template.Spec.Containers) == 1 && lockedDown(callarg1.Spec.Template.Spec.Containers[0])
+
+// services, ingresses, network policies and the manifest record: same namespace rule (their builders are trusted
+// here: only where the objects are put is decided, not what they contain)
+//@ import akashclient "github.com/ovrclk/akash/pkg/client/clientset/versioned"
+//@ import akashv1c "github.com/ovrclk/akash/pkg/client/clientset/versioned/typed/akash.network/v1"
+//@ extern corev1c.(CoreV1Interface).Services(recv, namespace)
+//@   pure
+//@ extern corev1c.(ServiceInterface).Get(recv, ctx, name, opts)
+//@   pure
+//@   ensures result1 == nil ==> result0 != nil && fresh(result0)
+//@ extern corev1c.(ServiceInterface).Create(recv, ctx, obj, opts)
+//@   pure
+//@ extern corev1c.(ServiceInterface).Update(recv, ctx, obj, opts)
+//@   pure
+//@ extern netv1c.(NetworkingV1Interface).Ingresses(recv, namespace)
+//@   pure
+//@ extern netv1c.(IngressInterface).Get(recv, ctx, name, opts)
+//@   pure
+//@   ensures result1 == nil ==> result0 != nil && fresh(result0)
+//@ extern netv1c.(IngressInterface).Create(recv, ctx, obj, opts)
+//@   pure
+//@ extern netv1c.(IngressInterface).Update(recv, ctx, obj, opts)
+//@   pure
+//@ extern netv1c.(NetworkingV1Interface).NetworkPolicies(recv, namespace)
+//@   pure
+//@ extern netv1c.(NetworkPolicyInterface).Get(recv, ctx, name, opts)
+//@   pure
+//@   ensures result1 == nil ==> result0 != nil && fresh(result0)
+//@ extern netv1c.(NetworkPolicyInterface).Create(recv, ctx, obj, opts)
+//@   pure
+//@ extern netv1c.(NetworkPolicyInterface).Update(recv, ctx, obj, opts)
+//@   pure
+//@ extern akashclient.(Interface).AkashV1(recv)
+//@   pure
+//@ extern akashv1c.(AkashV1Interface).Manifests(recv, namespace)
+//@   pure
+//@ extern akashv1c.(ManifestInterface).Get(recv, ctx, name, opts)
+//@   pure
+//@   ensures result1 == nil ==> result0 != nil && fresh(result0)
+//@ extern akashv1c.(ManifestInterface).Create(recv, ctx, obj, opts)
+//@   pure
+//@ extern akashv1c.(ManifestInterface).Update(recv, ctx, obj, opts)
+//@   pure
+//@ func (*serviceBuilder).create
+//@   trusted
+//@   modifies nothing
+//@ func (*serviceBuilder).update
+//@   trusted
+//@   modifies obj.ObjectMeta.Labels, obj.Spec.Selector, obj.Spec.Ports
+//@ func (*serviceBuilder).name
+//@   trusted
+//@   pure
+//@ func (*ingressBuilder).create
+//@   trusted
+//@   modifies nothing
+//@ func (*ingressBuilder).update
+//@   trusted
+//@   modifies obj.ObjectMeta.Labels, obj.Spec.Rules
+//@ func (*netPolBuilder).create
+//@   trusted
+//@   modifies nothing
+//@   ensures 0 <= len(result0)
+//@ func (*netPolBuilder).update
+//@   trusted
+//@   modifies obj.ObjectMeta.Name, obj.ObjectMeta.Labels
+//@ func (*manifestBuilder).create
+//@   trusted
+//@   modifies nothing
+//@ func (*manifestBuilder).update
+//@   trusted
+//@   modifies obj.Spec, obj.ObjectMeta.Labels, obj.ObjectMeta.Name
+//@ func (*manifestBuilder).name
+//@   trusted
+//@   pure
+//@ func (*manifestBuilder).ns
+//@   pure
+//@   requires b != nil
+//@   ensures result == b.mns
+//@ func applyService
+//@   requires b != nil
+//@   oncall v1.(CoreV1Interface).Services 1 assert callarg0 == nsOf(b.lid)
+//@   oncall v1.(CoreV1Interface).Services 2 assert callarg0 == nsOf(b.lid)
+//@   oncall v1.(CoreV1Interface).Services 3 assert callarg0 == nsOf(b.lid)
+//@ func applyIngress
+//@   requires b != nil
+//@   oncall v1.(NetworkingV1Interface).Ingresses 1 assert callarg0 == nsOf(b.lid)
+//@   oncall v1.(NetworkingV1Interface).Ingresses 2 assert callarg0 == nsOf(b.lid)
+//@   oncall v1.(NetworkingV1Interface).Ingresses 3 assert callarg0 == nsOf(b.lid)
+//@ func applyNetPolicies
+//@   requires b != nil
+//@   oncall v1.(NetworkingV1Interface).NetworkPolicies 1 assert callarg0 == nsOf(b.lid)
+//@   oncall v1.(NetworkingV1Interface).NetworkPolicies 2 assert callarg0 == nsOf(b.lid)
+//@   oncall v1.(NetworkingV1Interface).NetworkPolicies 3 assert callarg0 == nsOf(b.lid)
+//@   loop 1 modifies nothing
+//@   loop 1 invariant 0 <= iter
+//@ func applyManifest
+//@   requires b != nil
+//@   oncall v1.(AkashV1Interface).Manifests 1 assert callarg0 == b.mns
+//@   oncall v1.(AkashV1Interface).Manifests 2 assert callarg0 == b.mns
+//@   oncall v1.(AkashV1Interface).Manifests 3 assert callarg0 == b.mns
+
+//@ property C11 := (*deploymentBuilder).container#*, (*deploymentBuilder).create#*, (*deploymentBuilder).update#*, (*builder).ns#*, applyDeployment#*, applyService#*, applyIngress#*, applyNetPolicies#*, applyManifest#*
